@@ -22,6 +22,7 @@
 #include <boost/tokenizer.hpp>
 
 #include <algorithm>
+#include <cctype>
 #include <cstddef>
 #include <cstdint>
 #include <cstdlib>
@@ -587,7 +588,20 @@ namespace pika::util {
             std::string entry = sec->get_entry(entryname, defaultvaluestr);
             char* endptr = nullptr;
             std::ptrdiff_t val = std::strtoll(entry.c_str(), &endptr, /*base:*/ 0);
-            return endptr != entry.c_str() ? val : defaultvalue;
+
+            // The whole entry has to be a number (trailing whitespace is tolerated)
+            bool valid = endptr != entry.c_str();
+            for (; valid && *endptr != '\0'; ++endptr)
+            {
+                if (!std::isspace(static_cast<unsigned char>(*endptr))) { valid = false; }
+            }
+            if (!valid)
+            {
+                PIKA_THROW_EXCEPTION(pika::error::bad_parameter,
+                    "runtime_configuration::init_stack_size",
+                    "invalid stack size '{}' given for pika.stacks.{}", entry, entryname);
+            }
+            return val;
         }
         return defaultvalue;
     }
